@@ -120,7 +120,7 @@ Traverses(v, p) ==
   ELSE FALSE
 
 NonNullScalar(x) == x.t \notin {"null", "missing", "doc", "arr"}
-TraverseOps == {"$eq", "$ne", "$gt", "$gte", "$lt", "$lte", "$in", "$nin", "$mod", "$type",
+TraverseOps == {"$eq", "$ne", "$gt", "$gte", "$lt", "$lte", "$in", "$nin", "$mod", "$type", "$size",
                 "$bitsAllSet", "$bitsAllClear", "$bitsAnySet", "$bitsAnyClear"}
 
 (* A numeric path component that meets an array is read by MongoDB both as an index and as a field name of the  *)
@@ -152,7 +152,8 @@ CoreOp(doc, op, p, v) ==
   ELSE IF op = "$exists" THEN      \* over a fan-out path: in the domain unless a value at the end of the path is an empty array
        LET ends == Expand(doc, p, FALSE) IN \A i \in 1..Len(ends) : ends[i] # EmptyArr
   ELSE /\ op \in TraverseOps
-       /\ CASE op \in {"$in", "$nin"} -> v.t = "arr" /\ \A i \in 1..Len(v.a) : NonNullScalar(v.a[i])
+       /\ CASE op = "$size" -> TRUE       \* ($all takes an array operand: outside the domain on array-traversing paths)
+            [] op \in {"$in", "$nin"} -> v.t = "arr" /\ \A i \in 1..Len(v.a) : NonNullScalar(v.a[i])
             [] op \in {"$mod", "$type"} \/ op \in {"$bitsAllSet", "$bitsAllClear", "$bitsAnySet", "$bitsAnyClear"} -> TRUE
             [] OTHER -> NonNullScalar(v)
 CorePair(doc, prefix, pair, root) ==
